@@ -9,7 +9,7 @@ import vlib, refs, pairs
 
 SIZES = {  # (quick, thorough) number of pairs per stratum
     "uniform": (120, 3000), "threshold": (260, 8000), "grey": (80, 4000), "named": (60, 2500),
-    "nearbg": (80, 2500), "hair": (60, 1500), "witness": (900, 20000), "spell": (130, 4000), "isolum": (150, 12000), "hairline": (70, 3000), "corner": (120, 8000), "zeroone": (40, 600),
+    "nearbg": (80, 2500), "hair": (60, 1500), "witness": (900, 20000), "spell": (130, 4000), "isolum": (150, 12000), "hairline": (70, 3000), "corner": (120, 8000), "zeroone": (40, 600), "edge": (120, 6000),
 }
 
 
@@ -29,9 +29,9 @@ def strata(pid, t, rnd):
     def spelled(c, kind):
         return pairs.spell(c, kind, rnd)
 
-    w = {"C01": dict(uniform=1, threshold=1, grey=1, named=1, nearbg=.5, hair=.5, spell=1, isolum=.3, hairline=1, corner=.5, zeroone=1),
+    w = {"C01": dict(uniform=1, threshold=1, grey=1, named=1, nearbg=.5, hair=.5, spell=1, isolum=.3, hairline=1, corner=.5, zeroone=1, edge=.5),
          "C02": dict(uniform=.7, threshold=1, grey=.7, named=.5, nearbg=.7, hair=1.5, spell=.6, isolum=4, hairline=1, corner=3, zeroone=1),
-         "C16": dict(uniform=.5, threshold=1.2, grey=.5, named=.3, nearbg=2.0, hair=.3, spell=.2, isolum=.5),
+         "C16": dict(uniform=.5, threshold=1.2, grey=.5, named=.3, nearbg=2.0, hair=.3, spell=.2, isolum=.5, edge=2, corner=.3),
          "C04": dict(uniform=1, threshold=1, grey=.5, named=.3, nearbg=1.5, hair=.2, spell=.3, isolum=.5),
          "C03": dict(witness=1)}[pid]
     for name, scale in w.items():
@@ -74,6 +74,9 @@ def strata(pid, t, rnd):
                 add(a, b, large, runs=[(0, False), (0, True), (1, False), (2, True)] if k % 3 else None)
                 if specs[-1].get("runs") is None:
                     del specs[-1]["runs"]
+            elif name == "edge":
+                a, b = pairs.edge_near_threshold(rnd, rnd.choice(REQS))
+                add(a, b, large)
             elif name == "zeroone":
                 a, b = pairs.zero_one_pair(rnd)
                 add(a, b, large, "zeroone", runs=[(1, False), (0, True)])
